@@ -7,8 +7,8 @@ from . import base
 ID = 'C06'
 LEVEL = 'exploration'
 PLAN = {
-    'quick': [('synth', 20000), ('resume', 4000), ('tracker', 160000), ('small_enum', smallenum.size(2) + 24000), ('synth_cli_eof', 3000), ('shipped', 480), ('shipped_cli', 160)],
-    'thorough': [('synth', 800000), ('resume', 150000), ('tracker', 8000000), ('small_enum', smallenum.size(3)), ('synth_cli_eof', 100000), ('shipped', 20000), ('shipped_cli', 6000)],
+    'quick': [('synth', 20000), ('synth_twice', 4000), ('resume', 4000), ('tracker', 160000), ('small_enum', smallenum.size(2) + 24000), ('synth_cli_eof', 3000), ('shipped', 480), ('shipped_cli', 160)],
+    'thorough': [('synth', 800000), ('synth_twice', 150000), ('resume', 150000), ('tracker', 8000000), ('small_enum', smallenum.size(3)), ('synth_cli_eof', 100000), ('shipped', 20000), ('shipped_cli', 6000)],
 }
 DEADLINE = {'quick': 200, 'thorough': 3300}
 PROBES = ['line-reattempted', 'refusal-with-waiters-outstanding', 'tracker-interleaved-drain',
@@ -38,16 +38,23 @@ def eval_synth(case, acc=None):
         acc.count('skipped-after-nontermination')
         return []
     try:
-        run = simrun.execute(case)
+        if 'again' in case:
+            # the same Solver is asked twice (the same request again, or one more form)
+            run = simrun.execute(case, again=case['again'] or list(case['requested']), again_always=True)
+        else:
+            run = simrun.execute(case)
     except (core.RunTimeout, core.BudgetExceeded) as e:
         _TERM[0] += 1
         return [simrun.F(ID, 'C06.term', 'no-termination', f'solve did not finish: {type(e).__name__} {e}')]
     r1 = simrun.model_for(case, run)
-    fs = [f for f in simrun.judge(case, run, r1) if f['oracle'] in ORACLES]
+    oracles = ORACLES if 'again' not in case else {'C06.lost', 'T0', 'T1', 'T2', 'H4'}    # evaluation counts are per solve() call
+    fs = [f for f in simrun.judge(case, run, r1) if f['oracle'] in oracles]
     for f in fs:
         f['property'] = ID
     if acc is not None:
         base.synth_stats(case, run, r1, acc)
+        if 'again' in case:
+            acc.count('fault:solve-called-twice')
         interesting = run.monitor.reattempts or run.monitor.refused or \
             (run.outcome == 'failed' and run.unmet_f) or r1.verdict == 'abort'
         if run.outcome == 'failed' and run.unmet_f and not run.unmet_in:
@@ -204,6 +211,15 @@ def make_case(engine, seed):
         case['prompt'] = True
         case['file'] = [n for n in case['file'] if rng.chance(0.5) or case['persona'][n]['invalid']]
         case['rounds'] = [rng.pick([0, 1, 1, 2, 3]) for _ in range(rng.pick([1, 1, 2, 3]))]
+        return case
+    if engine == 'synth_twice':
+        rng = core.Rng(core.h64('c06twice', seed))
+        case = gen.gen_case(seed, clean=rng.chance(0.6))
+        others = [f for f in case['world']['forms'] if f['name'] not in [r.split(':')[0] for r in case['requested']]]
+        case['again'] = []
+        if others and rng.chance(0.5):
+            o = rng.pick(others)
+            case['again'] = [f"{o['name']}:{rng.pick(['0', '1', '2'])}" if o['multi'] else o['name']]
         return case
     return gen.gen_case(seed)
 
